@@ -588,7 +588,7 @@ def gen_run(r, idx, flavour, thorough):
         bins.setdefault(b, {"tests": {}})["tests"][name] = {"attempts": atts}
         tests.append((b, name))
     profile = f"c16p{idx}"
-    cfg = (f'[profile.{profile}]\nretries = {retries}\nfail-fast = false\nleak-timeout = "4s"\n'
+    cfg = (f'[profile.{profile}]\nretries = {retries}\nfail-fast = false\nleak-timeout = "30s"\n'
            f'slow-timeout = {{ period = "60s" }}\n'
            f'[profile.{profile}.junit]\npath = "junit.xml"\nstore-success-output = true\nstore-failure-output = true\n')
     args = ["--profile", profile, "--no-fail-fast", "--test-threads", str(r.choice([ntests, ntests, max(1, ntests // 2)])),
@@ -605,7 +605,7 @@ def gen_run(r, idx, flavour, thorough):
                 check_display=flavour in ("text", "colour", "combined"))
 
 
-def fixed_run(idx, name, tests, flavour="text", retries=0, leak="4s"):
+def fixed_run(idx, name, tests, flavour="text", retries=0, leak="30s"):
     """tests: {test name: [attempt behaviours]} in alpha::t1"""
     profile = f"c16p{idx}"
     cfg = (f'[profile.{profile}]\nretries = {retries}\nfail-fast = false\nleak-timeout = "{leak}"\n'
@@ -664,10 +664,47 @@ def terminate_run(idx):
     run = fixed_run(idx, "terminate", {"slowpoke": [{
         "stdout": {"seed": 77, "size": 5000}, "stderr": hx(b"started\n"), "sleep": 60, "on_term": "exit",
         "term_stdout": {"seed": 78, "size": 300000, "mode": "bursts", "burst": 50000},
-        "term_stderr": {"seed": 79, "size": 70000}, "terminated": True, "term_exit": 1}]}, flavour="mixed")
+        "term_stderr": {"seed": 79, "size": 70000}, "terminated": True, "term_exit": 1, "log_written": True}]},
+                    flavour="mixed")
     run["config"] = run["config"].replace("fail-fast = false\n", "fail-fast = false\n"
                                           'slow-timeout = { period = "1s", terminate-after = 1, grace-period = "45s" }\n')
     return run
+
+
+SCRIPT_OUT = bytes(range(256)) * 300 + b"tail"
+SCRIPT_ERR = b"script-err\n"
+SCRIPT_CODE = ("import os\n"
+               "d = bytes(range(256)) * 300\n"
+               "o = 0\n"
+               "while o < len(d):\n"
+               "    o += os.write(1, d[o:])\n"
+               "os.write(2, b'script-err\\n')\n"
+               "os.write(1, b'tail')\n")
+
+
+def script_run(idx):
+    """a setup script (the same accumulator, the wait loop of run_setup_script) writing more than a
+    pipe holds, then a burst right before it exits"""
+    run = fixed_run(idx, "setup-script", {"after_script": [{"stdout": hx(b"ok\n"), "exit": 0}]}, flavour="mixed")
+    prof = run["profile"]
+    run["config"] = ('experimental = ["setup-scripts"]\n' + run["config"] +
+                     f'[[profile.{prof}.scripts]]\nfilter = "all()"\nsetup = "c16script"\n'
+                     f'[script.c16script]\ncommand = ["/usr/bin/python3", "-S", "-c", {json.dumps(SCRIPT_CODE)}]\n')
+    run["script"] = True
+    return run
+
+
+def oracle_script(run, res):
+    evs = [e for e in res["tap"] if e.get("kind") == "SetupScriptFinished"]
+    if len(evs) != 1:
+        return [f"setup-script run: {len(evs)} SetupScriptFinished events: {res['stderr'][-500:]}"]
+    o = evs[0]["status"]["output"]
+    fails = []
+    for nm, want in (("stdout", SCRIPT_OUT), ("stderr", SCRIPT_ERR)):
+        got = o.get(nm)
+        if got is None or (got["len"], int(got["xxh64"])) != (len(want), py_xxh64(want)):
+            fails.append(f"setup script: captured {nm} is {got}, the script wrote {len(want)} bytes")
+    return fails
 
 
 LEAK_X = b"before-exit\n"
@@ -776,8 +813,11 @@ def oracle_run(run, res):
                                  f"{len(spec_bytes(beh.get('term_stderr')))} bytes but could not finish within the "
                                  f"grace period: its output was no longer being read")
                     continue
-                if not ended:
-                    # died before its handler was installed (overloaded machine): nothing to compare
+                t_written = [rec["t"] for rec in recs if rec.get("ev") == "written"]
+                t_sig = [rec["t"] for rec in recs if rec.get("ev") == "sig" and rec.get("who") == "test"]
+                if not ended or not t_written or (t_sig and t_sig[0] < t_written[0]):
+                    # died before its handler was installed, or the signal arrived while it was still
+                    # writing its first streams (overloaded machine): what it wrote is not known
                     cnt["inconclusive"] = cnt.get("inconclusive", 0) + 1
                     continue
             out, err = attempt_bytes(beh)
@@ -966,6 +1006,7 @@ def run(tier, seed):
     runs = fixed_runs(0)
     runs.append(leak_run(len(runs)))
     runs.append(terminate_run(len(runs)))
+    runs.append(script_run(len(runs)))
     plan = (["mixed"] * 8 + ["text"] * 8 + ["colour"] * 3 + ["combined"] * 3 + ["big"] * 2) if not thorough else \
            (["mixed"] * 100 + ["text"] * 120 + ["colour"] * 50 + ["combined"] * 50 + ["big"] * 24)
     for fl in plan:
@@ -992,7 +1033,7 @@ def run(tier, seed):
             chk.violation("counterexample", "e2e:capture",
                           dict(run={k: run_[k] for k in ("flavour", "scenario", "config", "args", "env", "profile", "tests",
                                                         "retries", "check_display", "idx")},
-                               leak=bool(run_.get("leak")), clauses=fails[:6], nextest_stderr=res["stderr"][-1500:]))
+                               leak=bool(run_.get("leak")), script=bool(run_.get("script")), clauses=fails[:6], nextest_stderr=res["stderr"][-1500:]))
             break
         for b, t in run_["scenario"]["bins"].items():
             for name, spec in t["tests"].items():
@@ -1062,6 +1103,8 @@ def replay(path, seed):
         run_["tests"] = [tuple(t) for t in run_["tests"]]
         res = rig.run(run_["scenario"], run_["config"], args=run_["args"], env_extra=run_["env"], timeout=300)
         fails = oracle_leak(run_, res) if d.get("leak") else oracle_run(run_, res)[0]
+        if d.get("script"):
+            fails = fails + oracle_script(run_, res)
         print("oracle:", fails or "accepts")
         return 1 if fails else 0
     return 0
